@@ -63,3 +63,4 @@ MANIFEST_ENTRY = dict(
     technique='CBMC code contracts (dfcc) on the real AVX-512 kernels compiled with -D__AVX512__ against a C semantics table of the intrinsics',
     text='One unit per 8-lane kernel (canonicalise, add/sub and their canonical-operand variants, 128/72-bit products, both reductions, mult, mult_8, square, loads/stores, register aliasing), all lanes, all register contents, under the documented operand assumptions; no bound.',
     note='Trusted: AVX-512 intrinsic semantics table (guarded natively on AVX-512F hardware), 32x32 product abstracted as an uninterpreted function in recombination units, alignment not modelled, CBMC/cadical.')
+NATIVE_SOURCES = ['props/C11/wrappers.cpp']
